@@ -110,6 +110,54 @@ def _e2_cases(ctx, n):
     return cases
 
 
+def _cone_of_dump(d, edited):
+    """Keys reachable from the edited files along dependency rows and creator -> product links
+    that start at a step (the `down` relation of model/Noop.v), computed from a canonical dump."""
+    succ = {}
+    for a, b, _dy in d["deps"]:
+        succ.setdefault(tuple(a), set()).add(tuple(b))
+    for k, c, _det in d["nodes"]:
+        if c is not None and c[0] == "step":
+            succ.setdefault(tuple(c), set()).add(tuple(k))
+    seen = {("file", p) for p in edited}
+    todo = list(seen)
+    while todo:
+        k = todo.pop()
+        for n in succ.get(k, ()):
+            if n not in seen:
+                seen.add(n)
+                todo.append(n)
+    return seen
+
+
+def _check_e2_edit(ctx, i, trace, marks):
+    if "edit" not in marks:
+        return
+    hs, pre, post, outcome = marks["edit"]
+    ctx.count("e2:edits")
+    if outcome != "ok":
+        ctx.add_failure("oracle", "E2:cone", f"oracle:e2:cone:external-update-{outcome}",
+                        f"update_file_hashes EXTERNAL {hs} was rejected on a quiescent state",
+                        witness={"ops": [list(map(str, t[:2])) for t in trace]})
+        return
+    cone = _cone_of_dump(pre, [p for p, _ in hs])
+    before = {r[0]: r[1] for r in pre["steps"]}
+    changed = sorted(r[0] for r in post["steps"] if before.get(r[0]) != r[1])
+    ctx.case(("e2cone", i, tuple(changed)), nontrivial=bool(changed))
+    ctx.count("e2:edit_steps_made_pending", len(changed))
+    outside = [l for l in changed if ("step", l) not in cone]
+    notpending = [r[0] for r in post["steps"] if r[0] in changed and r[1] != 21]
+    if pre["nodes"] != post["nodes"] or pre["deps"] != post["deps"]:
+        ctx.add_failure("oracle", "E2:cone", "oracle:e2:cone:external-update-changed-nodes-or-edges",
+                        f"update_file_hashes EXTERNAL {hs} changed node or dependency rows",
+                        witness={"ops": [list(map(str, t[:2])) for t in trace]})
+    if outside or notpending:
+        ctx.add_failure("oracle", "E2:cone", "oracle:e2:cone:step-outside-cone-changed",
+                        f"after EXTERNAL {hs}: steps outside the cone changed state: {outside}; "
+                        f"changed to something else than PENDING: {notpending}",
+                        witness={"ops": [list(map(str, t[:2])) for t in trace], "edited": [p for p, _ in hs]})
+
+
 def correspondence(ctx):
     n = SETTINGS[ctx.tier][0]
     t0 = time.time()
@@ -144,6 +192,7 @@ def correspondence(ctx):
             ctx.add_failure("oracle", "E2:restart", "oracle:e2:restart:finalize-changed-the-graph",
                             "revert_optional_steps + delete_detached changed the stored workflow on a no-change rebuild",
                             witness={"ops": [list(map(str, t[:2])) for t in trace[:marks['q'] + 1]]})
+        _check_e2_edit(ctx, i, trace, marks)
         pre = [t for t in trace[:marks["q"]] if t[0][0] != "dispatch_error"]
         ops = c04_e2.cq_xops(pre)
         qterm = f"(run_xops {ops} (init_st 3))"
